@@ -340,18 +340,31 @@ def gen_containers(ctx):
     return out
 
 
+WEIGHT_PROFILES = {0: "normalised uniform", 1: "normalised skewed", 2: "all -inf", 3: "all underflowing", 4: "exponentials sum to 0.5",
+                   5: "exponentials sum to 1e-6*N", 6: "exponentials sum to N > 1", 7: "one finite weight, others -inf", 8: "all NaN"}
+
+
 def gen_resampling(ctx):
-    """N x prior ratios x layouts x initialisation grids x parent-vector lengths"""
+    """N x weight profiles (normalised, un-normalised with sum < 1 / << 1 / > 1, -inf, underflow, NaN) x prior ratios x layouts x
+    initialisation grids x parent-vector lengths: the SHAPE of the weight vector is what the precondition fixes, not its values"""
     out = []
     lays = [(4, 0, 0), (2, 0, 0), (3, 1, 0), (6, 0, 0), (0, 1, 1), (1, 1, 1), (2, 2, 0)]
+    profs = sorted(WEIGHT_PROFILES)
     for (dl, dc, q) in lays:
-        for N in range(0, 6):
-            out.append(("b_rs %d %s %d %s %d" % (N, lay(dl, dc, q), N, lay(dl, dc, q), N), "rs"))
+        for N in range(0, 8):
+            for prof in profs:
+                if ctx.tier != "thorough" and (dl, dc, q) not in ((2, 0, 0), (1, 1, 1)) and (N + prof + dl) % 3 != ctx.seed % 3:
+                    continue
+                out.append(("b_rs %d %s %d %s %d %d" % (N, lay(dl, dc, q), N, lay(dl, dc, q), N, prof), "rs"))
         for (rN, plen) in ((3, 4), (5, 4), (4, 3), (4, 5)):
-            out.append(("b_rs 4 %s %d %s %d" % (lay(dl, dc, q), rN, lay(dl, dc, q), plen), "rs"))
-        out.append(("b_rs 4 %s 4 %s 4" % (lay(dl, dc, q), lay(dl + 1, dc, q)), "rs"))
+            for prof in (0, 2, 6):
+                out.append(("b_rs 4 %s %d %s %d %d" % (lay(dl, dc, q), rN, lay(dl, dc, q), plen, prof), "rs"))
+        out.append(("b_rs 4 %s 4 %s 4 0" % (lay(dl, dc, q), lay(dl + 1, dc, q)), "rs"))
         if dc:
-            out.append(("b_rs 4 %s 4 %s 4" % (lay(dl, dc, q), lay(dl, dc, 1 - q)), "rs"))
+            out.append(("b_rs 4 %s 4 %s 4 4" % (lay(dl, dc, q), lay(dl, dc, 1 - q)), "rs"))
+    for N in (10, 17, 33):
+        for prof in profs:
+            out.append(("b_rs %d 2 0 0 %d 2 0 0 %d %d" % (N, N, N, prof), "rs"))
     ratios = [(0, 1), (1, 10), (1, 3), (1, 2), (2, 3), (9, 10), (1, 1), (3, 2)]
     for (dl, dc, q) in lays:
         for N in range(0, 11):
@@ -363,9 +376,13 @@ def gen_resampling(ctx):
                 for (nx, ny) in grids:
                     if ctx.tier != "thorough" and (N + a + b + nx + dl) % 3 != ctx.seed % 3 and not (N <= 1 or a >= b):
                         continue
-                    out.append(("b_rwp %d %d %d %s %d %d %d" % (N, a, b, lay(dl, dc, q), nx, ny, N), "rwp"))
+                    prof = (N + a + nx + dl + dc) % len(profs)
+                    out.append(("b_rwp %d %d %d %s %d %d %d %d" % (N, a, b, lay(dl, dc, q), nx, ny, N, prof), "rwp"))
         for plen in (7, 9):
-            out.append(("b_rwp 8 1 2 %s 2 2 %d" % (lay(dl, dc, q), plen), "rwp"))
+            out.append(("b_rwp 8 1 2 %s 2 2 %d 0" % (lay(dl, dc, q), plen), "rwp"))
+        for prof in profs:
+            out.append(("b_rwp 8 1 2 %s 2 2 8 %d" % (lay(dl, dc, q), prof), "rwp"))
+            out.append(("b_rwp 7 1 2 %s 1 3 7 %d" % (lay(dl, dc, q), prof), "rwp"))
     return out
 
 
@@ -415,7 +432,7 @@ WITNESSES = [
     ("b_gpfmove 3 3", "gpfmove"), ("b_gpfmove 4 3", "gpfmove"), ("b_gpfmove 1 3", "gpfmove"),   # fixed by 1b09d3a
     ("b_grid 1 1 1 2 0 0", "grid"), ("b_grid 2 2 4 6 0 0", "grid"),                               # fixed by 8ea2579
     ("b_ssm 1 0 2 2", "ssm"),                                                                       # fixed by 4751db6
-    ("b_rwp 8 1 2 0 1 1 2 2 8", "rwp"),                                                             # fixed by afe0735
+    ("b_rwp 8 1 2 0 1 1 2 2 8 0", "rwp"), ("b_rs 4 2 0 0 4 2 0 0 4 4", "rs"), ("b_rs 4 2 0 0 4 2 0 0 4 3", "rs"),                                                            # fixed by afe0735
     ("b_hist 3 s10 a3 a3 a3 a3 s3 g", "hist"),                                                      # fixed by 382f8e9
     ("b_ssm 2 2 4 5", "ssm"),                                                                       # fixed by 3e146d2
     ("b_wna_noise 1 3", "wna_noise"), ("b_wna_noise 3 2", "wna_noise"),                            # fixed by d63c821
@@ -717,7 +734,10 @@ def branch_tags(line, group, hk, hp):
                 tags.append("extract:map-based method without previous weights -> not available")
             if int(t[6]) == 1 and int(t[2]) > 0:
                 tags.append("directional_mean:single column shortcut")
+        elif group == "rs":
+            tags.append("Resampling:weights " + WEIGHT_PROFILES.get(int(t[10]), "?"))
         elif group == "rwp":
+            tags.append("ResamplingWithPrior:weights " + WEIGHT_PROFILES.get(int(t[10]), "?"))
             N, a, b = int(t[1]), int(t[2]), int(t[3])
             p = N * a // b
             tags.append("ResamplingWithPrior:no prior particles" if p == 0 else "ResamplingWithPrior:prior + resampled")
@@ -756,6 +776,17 @@ ENTRY = {
 }
 
 
+def group_of(line):
+    """entry-point group of a corpus / replay line, from its op"""
+    t = line.split()
+    op = t[0][2:] if t[0].startswith("b_") else t[0]
+    if op == "ukfc":
+        return ("ukf_gen", "ukf_add", "sukf")[min(int(t[1]), 2)]
+    if op == "corrseq":
+        return ("ukf_seq", "ukf_seq", "sukf_seq")[min(int(t[1]), 2)]
+    return {"kfc": "kf"}.get(op, op)
+
+
 def run(ctx):
     ctx.proof_stage()
     binary = vlib.build_harness(H)
@@ -763,11 +794,11 @@ def run(ctx):
     if ctx.replay:
         rp = json.loads(open(ctx.replay).read())
         line = rp.get("replay", {}).get("input_line")
-        cases = [(line, rp.get("replay", {}).get("group", "replay"))] if line else []
+        cases = [(line, rp.get("replay", {}).get("group") or group_of(line))] if line else []
     else:
         corpus = vlib.VERIF / "corpus" / "C14" / "cases.txt"
         if corpus.exists():
-            cases += [(ln.strip(), "corpus") for ln in corpus.read_text().split("\n") if ln.strip() and not ln.startswith("#")]
+            cases += [(ln.strip(), group_of(ln)) for ln in corpus.read_text().split("\n") if ln.strip() and not ln.startswith("#")]
         cases += WITNESSES
         for gen in GENERATORS:
             cases += gen(ctx)
